@@ -1367,20 +1367,56 @@ def resolution_dict(fn, where):
     return ps[0], d, name
 
 
-def model_parse_chain(fn, where):
-    """ChoiceModel.parse: resolution <- get_resolution(o), o in [parser.parse(e) for e in extractor.extract(query)]"""
+def resolution_sites(fn):
+    """names o with `<x>.resolution = self.get_resolution(o)` in fn"""
+    out = []
+    for n in walk_fn(fn):
+        if isinstance(n, ast.Assign) and len(n.targets) == 1 and isinstance(n.targets[0], ast.Attribute) and \
+                n.targets[0].attr == 'resolution' and isinstance(n.value, ast.Call) and is_self_attr(n.value.func, 'get_resolution') \
+                and len(n.value.args) == 1 and not n.value.keywords and isinstance(n.value.args[0], ast.Name):
+            out.append(n.value.args[0].id)
+    return out
+
+
+def iterated_from(fn, name):
+    """Name X such that `name` is the target of `for name in X` or of a comprehension generator over X (exactly one) else None"""
+    srcs = []
+    for n in walk_fn(fn):
+        if isinstance(n, (ast.For, ast.comprehension)) and isinstance(n.target, ast.Name) and n.target.id == name:
+            srcs.append(n.iter)
+    if len(srcs) == 1 and isinstance(srcs[0], ast.Name):
+        return srcs[0].id
+    return None
+
+
+def model_parse_chain(idx, cls, fn, where):
+    """ChoiceModel.parse: resolution <- get_resolution(o), o in [parser.parse(e) for e in extractor.extract(query)];
+    the assembly may live one level down in a helper of the same class that is mapped over the parse results"""
     ps = params_of(fn)
-    calls = [n for n in walk_fn(fn) if isinstance(n, ast.Call) and is_self_attr(n.func, 'get_resolution')]
-    if not calls or not all(len(c.args) == 1 and isinstance(c.args[0], ast.Name) for c in calls):
-        raise AnalysisError('%s: get_resolution call not recognised' % where)
-    o = calls[0].args[0].id
-    stored = any(isinstance(n, ast.Assign) and isinstance(n.targets[0], ast.Attribute) and n.targets[0].attr == 'resolution'
-                 and n.value is calls[0] for n in walk_fn(fn))
-    loops = [n for n in walk_fn(fn) if isinstance(n, ast.For) and isinstance(n.target, ast.Name) and n.target.id == o
-             and isinstance(n.iter, ast.Name)]
-    if not stored or len(loops) != 1:
+    pr = None
+    direct = resolution_sites(fn)
+    if direct:
+        if len(set(direct)) != 1:
+            raise AnalysisError('%s: several get_resolution arguments' % where)
+        pr = iterated_from(fn, direct[0])
+    else:
+        for n in walk_fn(fn):
+            if isinstance(n, ast.Call) and is_self_attr(n.func) and len(n.args) == 1 and not n.keywords and isinstance(n.args[0], ast.Name):
+                hk, hfn = idx.find_method(cls, n.func.attr)
+                if hfn is None or hfn is fn:
+                    continue
+                hps = params_of(hfn)
+                if len(hps) == 1 and resolution_sites(hfn) and set(resolution_sites(hfn)) == {hps[0]}:
+                    rets = [r_ for r_ in walk_fn(hfn) if isinstance(r_, ast.Return) and r_.value is not None]
+                    if not rets:
+                        raise AnalysisError('%s: helper %s assembles a result but returns nothing' % (where, hfn.name))
+                    pr = iterated_from(fn, n.args[0].id)
+                    break
+        else:
+            raise AnalysisError('%s: get_resolution call not recognised (neither in parse nor in a helper of the class '
+                                'called with one element)' % where)
+    if pr is None:
         raise AnalysisError('%s: result loop not recognised' % where)
-    pr = loops[0].iter.id
 
     def is_call(e, recv, meth):
         return isinstance(e, ast.Call) and isinstance(e.func, ast.Attribute) and e.func.attr == meth and \
@@ -2049,7 +2085,7 @@ def analyse_registration(idx, R, E, ev, r, done, tab=None):
     if gfn is None or mfn is None:
         raise AnalysisError('%s: no get_resolution / parse for %s' % (r.model_cls.mod.rel, r.model_cls.name))
     E.consulted(gk.mod.path)
-    model_parse_chain(mfn, '%s:%s' % (mk.mod.rel, qual(mk, mfn)))
+    model_parse_chain(idx, r.model_cls, mfn, '%s:%s' % (mk.mod.rel, qual(mk, mfn)))
     gparam, gdict, gname = resolution_dict(gfn, '%s:%s' % (gk.mod.rel, qual(gk, gfn)))
     vk, vfn = idx.find_method(r.extractor_cls, 'match_value')
     sentinel_broken = False
